@@ -16,10 +16,10 @@ ASSUMPTIONS = [
     "implementation by the oracle only (the clipping to the used area is openpyxl/excelwrapper code that "
     "is not modelled)",
     "CSE array formulas, tables / structured references, formulas returning a reference (OFFSET, INDIRECT) and "
-    "the reference cell of an unbounded range, range operations (intersection, computed corners), sheet names that "
-    "need quotes and merged areas are outside "
-    "the machine: the streams cse-order (incl. quoted sheets), table-order, reference-order, cse-range, range-ops, "
-    "unbounded-history and merged-order are judged on the implementation alone, the reference "
+    "range operations (intersection, computed corners), sheet names that need quotes and merged areas are outside "
+    "the machine (the reference cell of a whole-column range is inside it in the order-colb stream only: a node of "
+    "range kind, alias of the bounded range node): the streams cse-order (incl. quoted sheets), table-order, "
+    "reference-order, cse-range, range-ops, unbounded-history and merged-order are judged on the implementation alone, the reference "
     "being the value of the cell evaluated alone by a fresh compiler (from-scratch compile after writes)",
 ]
 
@@ -154,9 +154,79 @@ def _stream_dag(ctx):
                     break
 
 
+def _stream_dag_colb(ctx):
+    """Model-backed, two-column workbooks of harness/wbgen.py (gen_workbook(colb=True)): constants and trailing
+    blanks in column B, formulas of column A over the whole column B:B, over the explicit range B1:Bm it stands
+    for, over smaller blocks and single cells of column B.  Targets = every cell of column A, the reference node
+    S!B:B, every range node and two cells of column B; every (sampled) first-evaluation order of the targets;
+    each value = the value of the target evaluated alone by a fresh compiler, and = the graph machine's
+    (Model/GraphExpr.v FAlias: S!B:B is a node of range kind, alias of the bounded range node)."""
+    from pycel import ExcelCompiler
+    rng = ctx.rng
+
+    def trim(v):
+        if isinstance(v, tuple) and v and isinstance(v[0], tuple):
+            if len(v[0]) == 1:
+                v = tuple(r[0] for r in v)
+            if len(v) == 1:
+                v = v[0]
+        return v
+    model_calls, model_meta = [], []
+    for k in range(ctx.n(12, 150)):
+        wb = wbgen.gen_workbook(rng, ncells=rng.randrange(3, 5), pool=wbgen.CLEAN_POOL + [0, 1, True], colb=True)
+        desc = [(x['addr'], x.get('value'), x.get('text')) for x in wb.nodes]
+        bcells = [i for i in wb.inputs() if wb.nodes[i].get('col') == 2]
+        targets = [i for i, x in enumerate(wb.nodes) if i not in bcells] + rng.sample(bcells, min(2, len(bcells)))
+        solo = {i: canon(ExcelCompiler(excel=wb.to_openpyxl()).evaluate(wb.nodes[i]['addr'])) for i in targets}
+        perms = [tuple(rng.sample(targets, len(targets))) for _ in range(ctx.n(40, 200))]
+        for pi, perm in enumerate(dict.fromkeys(perms)):
+            c = ExcelCompiler(excel=wb.to_openpyxl())
+            case = dict(call='order-colb', workbook=desc, order=[wb.nodes[i]['addr'] for i in perm])
+            try:
+                got = {i: canon(c.evaluate(wb.nodes[i]['addr'])) for i in perm}
+                again = {i: canon(c.evaluate(wb.nodes[i]['addr'])) for i in perm}
+            except Exception as exc:      # noqa: BLE001
+                ctx.violation(case, f"evaluate raises {type(exc).__name__}: {exc}"[:200])
+                continue
+            ctx.count(('order-colb', k, pi), kind='order-colb')
+            if got != solo:
+                bad = [wb.nodes[i]['addr'] for i in targets if got[i] != solo[i]]
+                ctx.violation(case, f"value depends on the first-evaluation order at {bad} (two-column workbook)",
+                              impl={wb.nodes[i]['addr']: got[i] for i in targets},
+                              expected={wb.nodes[i]['addr']: solo[i] for i in targets})
+            if again != got:
+                ctx.violation(dict(case, call='repeat-colb'), "repeating evaluate returns another value",
+                              impl=again, expected=got)
+            if pi < 6:
+                model_calls.append(('history', [wb.wire(), [[0, i] for i in perm]]))
+                model_meta.append((case, [got[i] for i in perm]))
+    if ctx.model and model_calls:
+        for (case, impl_vals), ans in zip(model_meta, ctx.model.batch(model_calls)):
+            if not isinstance(ans, list) or (ans and not isinstance(ans[0], list)):
+                ctx.divergence(case, 'n/a', ans, 'Model/Graph.v history entry rejected the input')
+                continue
+            mvals = [trim(_canon_model(dec_val(m[0]))) for m in ans]
+            if any(not same(a, b) for a, b in zip(mvals, impl_vals)):
+                ctx.divergence(case, impl_vals, mvals, 'Model/Graph.v evaluate = ExcelCompiler.evaluate')
+    ctx.extra['rule'] += (
+        "; order-colb (model-backed) - two-column workbooks (constants and trailing blanks in column B; formulas of "
+        "column A over B:B, the explicit B1:Bm, smaller blocks and single cells of column B): sampled "
+        "first-evaluation orders of the cells of column A, the reference node S!B:B, the range nodes and two cells "
+        "of column B; value = the target evaluated alone by a fresh compiler = the graph machine's")
+
+
+def _canon_model(v):
+    if isinstance(v, list):
+        return [_canon_model(x) for x in v]
+    if isinstance(v, tuple) and not (len(v) == 2 and v[0] == 'float'):
+        return tuple(_canon_model(x) for x in v)
+    return v
+
+
 def run(ctx):
     ensure_impl_on_path()
     _stream_dag(ctx)
+    _stream_dag_colb(ctx)
     # oracle-only streams (implementation alone; the reference is the cell evaluated alone in a fresh compiler)
     for stream in (_stream_cse, _stream_tables, _stream_reference, _stream_cse_overlap, _stream_range_ops,
                    _stream_unbounded_history, _stream_cse_sheets, _stream_merged):
